@@ -313,6 +313,57 @@ def eval_c15(ctx, tr):
                     ctx.check('C15.sound', done, bus=bus, ev=r.ev, handler=name, why='event accepted before the call had not finished processing')
 
 
+# ------------------------------------------------------------------ C07
+def eval_c07(ctx, tr, finished):
+    fw = getattr(ctx, 'forwards', [])
+    evs = ctx.events
+    for lab, fd in tr.firstD.items():
+        first_dr = next((d for d in tr.DR if d.ev == lab), None)
+        if first_dr is None:
+            continue
+        entry = first_dr.bus
+        reach, todo = [entry], [entry]
+        while todo:
+            x = todo.pop(0)
+            for (s_, d_) in fw:
+                if s_ == x and d_ not in reach:
+                    reach.append(d_)
+                    todo.append(d_)
+        # extra explicit dispatches of the same object to other buses (re-dispatch) extend the reachable set
+        for d in tr.DR:
+            if d.ev == lab and d.caller != 'fwd' and d.bus not in reach:
+                reach.append(d.bus)
+                todo = [d.bus]
+                while todo:
+                    x = todo.pop(0)
+                    for (s_, d_) in fw:
+                        if s_ == x and d_ not in reach:
+                            reach.append(d_)
+                            todo.append(d_)
+        for b in ctx.buses:
+            for name in ctx.expected(b, lab):
+                n = tr.count(b, lab, name)
+                ctx.check('C07.reach_once', n == (1 if b in reach else 0), ev=lab, bus=b, handler=name, n=n, reachable=b in reach)
+            if b not in reach:
+                stray = [e for e in tr.E if e.bus == b and e.ev == lab]
+                ctx.check('C07.reach_once', not stray, ev=lab, bus=b, why='handler ran on an unreachable bus')
+        arrival = []
+        for d in tr.DR:
+            if d.ev == lab and d.bus not in arrival:
+                arrival.append(d.bus)
+        names = [ctx.buses[b].name for b in arrival]
+        ctx.check('C07.path', list(evs[lab].event_path) == names and sorted(arrival) == sorted(reach), ev=lab,
+                  got=list(evs[lab].event_path), arrival=arrival, reach=reach)
+        ctx.check('C07.same_object', all(d.same for d in tr.DR if d.ev == lab), ev=lab)
+        if finished:
+            have = {(r.eventbus_name, r.handler_name.rsplit('.', 1)[-1]) for r in evs[lab].event_results.values()}
+            want = {(ctx.buses[b].name, n) for b in reach for n in ctx.expected(b, lab)}
+            ctx.check('C07.results_accumulate', want <= have, ev=lab, missing=sorted(want - have))
+        if len(reach) > 1:
+            ctx.witness('forwarded')
+    ctx.check('C07.terminates', bool(finished), why='forwarding scenario still busy at the virtual horizon')
+
+
 def final_snaps(ctx):
     return {lab: ctx.snap(e) for lab, e in ctx.events.items()}
 
@@ -326,6 +377,7 @@ def evaluate(ctx, finished):
     eval_c04(ctx, tr)
     eval_c05(ctx, tr)
     eval_c06(ctx, tr)
+    eval_c07(ctx, tr, finished)
     eval_c08(ctx, tr, fs)
     eval_c09(ctx, tr)
     eval_c11(ctx, tr, fs)
